@@ -433,6 +433,12 @@ static void convert_pp_number(Token *tok) {
   char *end;
   long double val = strtold(tok->loc, &end);
 
+  // strtold also accepts "0x1.8", but a hexadecimal floating constant
+  // requires a binary exponent (C11 6.4.4.2).
+  if (tok->loc[0] == '0' && (tok->loc[1] == 'x' || tok->loc[1] == 'X') &&
+      !memchr(tok->loc, 'p', end - tok->loc) && !memchr(tok->loc, 'P', end - tok->loc))
+    error_tok(tok, "hexadecimal floating constants require an exponent");
+
   Type *ty;
   if (*end == 'f' || *end == 'F') {
     ty = ty_float;
